@@ -31,6 +31,7 @@ type cworld struct {
 	node     *world.Node
 	propAddr []byte
 	mu       sync.Mutex
+	blobMu   sync.Mutex
 	seq      int
 }
 
@@ -44,11 +45,18 @@ func getWorld() (*cworld, error) {
 	theWorldOnce.Do(func() {
 		gob.Register(&types.SignedHeader{}) // as Manager.LoadCache does
 		gob.Register(&types.Data{})
-		base := os.Getenv("VERIF_WORKDIR")
-		if base == "" {
-			base = os.TempDir()
+		// cache files are real files; the disk of the shared machine costs ~10-20 ms per
+		// save/load, the memory file system < 1 ms, so prefer it when it is there
+		var dir string
+		var err error
+		for _, base := range []string{"/dev/shm", os.Getenv("VERIF_WORKDIR"), os.TempDir()} {
+			if base == "" {
+				continue
+			}
+			if dir, err = os.MkdirTemp(base, "verif-c12-"); err == nil {
+				break
+			}
 		}
-		dir, err := os.MkdirTemp(base, "c12-")
 		if err != nil {
 			theWorldErr = err
 			return
@@ -69,6 +77,14 @@ func getWorld() (*cworld, error) {
 		theWorld = w
 	})
 	return theWorld, theWorldErr
+}
+
+func TestMain(m *testing.M) {
+	code := m.Run()
+	if theWorld != nil {
+		_ = os.RemoveAll(theWorld.dir)
+	}
+	os.Exit(code)
 }
 
 func mustWorld(t testing.TB) *cworld {
@@ -102,6 +118,48 @@ func (w *cworld) drain() {
 			return
 		}
 	}
+}
+
+// blobResult is what the real retriever did with one DA blob.
+type blobResult struct {
+	hev *block.NewHeaderEvent
+	dev *block.NewDataEvent
+	pan any
+}
+
+// handleBlob passes one blob through the real retriever decoders (handlePotentialHeader, then
+// handlePotentialData) and collects the event they emit, or the panic they raise.
+func (w *cworld) handleBlob(blob []byte, daHeight uint64) (r blobResult) {
+	w.blobMu.Lock()
+	defer w.blobMu.Unlock()
+	defer func() {
+		if p := recover(); p != nil {
+			r.pan = p
+		}
+	}()
+	w.drain()
+	w.node.M.VerifHandleBlob(w.ctx, blob, daHeight)
+	select {
+	case e := <-w.node.M.VerifHeaderInCh():
+		r.hev = &e
+	case e := <-w.node.M.VerifDataInCh():
+		r.dev = &e
+	default:
+	}
+	return r
+}
+
+// blobPanic classifies a retriever panic by root cause.
+func blobPanic(blob []byte, pan any) *world.Verdict {
+	sig := "C12/da-retriever/panic"
+	what := "a DA blob"
+	var sd types.SignedData
+	if err := sd.UnmarshalBinary(blob); err == nil && sd.Metadata == nil && len(sd.Txs) > 0 {
+		sig = "C12/da-retriever/panic-signed-data-without-metadata"
+		what = "a signed-data blob that carries txs but no metadata"
+	}
+	v := world.Fail(sig, "the DA retriever panicked on %s (%x): %v", what, clip(blob), pan)
+	return &v
 }
 
 // p2pRoundTrip is the codec as go-header's exchange and store use it: only the interface.
@@ -389,17 +447,18 @@ func (w *cworld) valueSignedHeader(s *SignedHeaderSpec) (*world.Verdict, []strin
 	if r := check("da-blob", g7); r != nil {
 		return r, nil
 	}
-	if preValid && bytes.Equal(sh.ProposerAddress, w.propAddr) {
+	if preValid && bytes.Equal(sh.ProposerAddress, w.propAddr) && sh.Signer.PubKey.Equals(w.node.PubKey) {
 		labels = append(labels, "da-blob-through-real-retriever")
-		w.drain()
-		w.node.M.VerifHandleBlob(w.ctx, blob, 7)
-		select {
-		case ev := <-w.node.M.VerifHeaderInCh():
-			if r := check("da-retriever", ev.Header); r != nil {
+		br := w.handleBlob(blob, 7)
+		switch {
+		case br.pan != nil:
+			return blobPanic(blob, br.pan), nil
+		case br.hev != nil:
+			if r := check("da-retriever", br.hev.Header); r != nil {
 				return r, nil
 			}
-			if ev.DAHeight != 7 {
-				return fail(kSignedHeader, "da-retriever", "da-height", "event carries DA height %d, blob was at 7", ev.DAHeight), nil
+			if br.hev.DAHeight != 7 {
+				return fail(kSignedHeader, "da-retriever", "da-height", "event carries DA height %d, blob was at 7", br.hev.DAHeight), nil
 			}
 		default:
 			return fail(kSignedHeader, "da-retriever", "not-delivered", "a valid proposer-signed header blob produced no header event"), nil
@@ -642,12 +701,14 @@ func (w *cworld) valueSignedData(s *SignedDataSpec) (*world.Verdict, []string) {
 		return r, nil
 	}
 	// DA blob: submitDataToDA marshals with MarshalBinary, handlePotentialData reads with UnmarshalBinary
-	if preSig && len(sd.Txs) > 0 && bytes.Equal(sd.Signer.Address, w.propAddr) {
+	if preSig && len(sd.Txs) > 0 && bytes.Equal(sd.Signer.Address, w.propAddr) && sd.Signer.PubKey.Equals(w.node.PubKey) {
 		labels = append(labels, "da-blob-through-real-retriever")
-		w.drain()
-		w.node.M.VerifHandleBlob(w.ctx, b, 9)
-		select {
-		case ev := <-w.node.M.VerifDataInCh():
+		br := w.handleBlob(b, 9)
+		switch {
+		case br.pan != nil:
+			return blobPanic(b, br.pan), nil
+		case br.dev != nil:
+			ev := br.dev
 			if d := diffData(&sd.Data, ev.Data); d != "" {
 				return fail(kSignedData, "da-retriever", "field:"+d, "data event differs in %s", d), nil
 			}
